@@ -22,6 +22,8 @@ where
         buf.reserve(to - from);
 
         let reader = self.base.region().create_reader();
+        #[cfg(anydb_verif)]
+        rawdb::verif::lock_rw("pages", rawdb::verif::LockMode::Read, &self.pages);
         let pages = self.pages.read();
         ReadWriteCompressedVec::<I, T, S>::read_stored_pages_into(&reader, &pages, from, to, buf);
     }
